@@ -18,7 +18,10 @@
  *        > gp ok <file offset> <len> | gp nodata
  *
  * (B) the public API on a generated dump file:
- *   open <path> <virt_bits>            > open <status>
+ *   open <path> <virt_bits>            > open <status>          (a new context)
+ *   reopen <path> <virt_bits> <how>    the context that is open is given another dump (how=0: kdump_open_fd,
+ *        how=1: the file.fd attribute is set again); the old descriptor is closed afterwards
+ *        > reopen <status>
  *   page <as> <frame>                  > page <status> <idx> <pfn> <uniform>
  *   rd <as> <addr>                     8 bytes at addr: > rd <status> <hex>
  *   conv <from> <to> <addr>            > conv ok <addr> | conv fail
@@ -250,6 +253,31 @@ int main(void)
 			}
 			printf("> open %s\n", kstatus_name(st));
 			if (st != KDUMP_OK) { fprintf(stderr, "open: %s\n", kdump_get_err(ctx)); do_close(); }
+		} else if (sscanf(line, "reopen %511s %u %u", path, &vbits, &as) == 3) {
+			/* the SAME context is given another dump: as=0 kdump_open_fd, as=1 the file.fd attribute */
+			kdump_status st; kdump_attr_t at; int nfd;
+			if (!ctx) { puts("> reopen noctx"); continue; }
+			if (axsys) addrxlat_sys_decref(axsys);
+			if (axctx) addrxlat_ctx_decref(axctx);
+			axsys = NULL; axctx = NULL;
+			nfd = open(path, O_RDONLY);
+			st = as ? kdump_set_number_attr(ctx, KDUMP_ATTR_FILE_FD, nfd) : kdump_open_fd(ctx, nfd);
+			if (fd >= 0) close(fd);
+			fd = nfd;
+			if (st == KDUMP_OK && vbits) {
+				kdump_status s2 = kdump_set_number_attr(ctx, KDUMP_ATTR_XLAT_DEFAULT ".virt_bits", vbits);
+				(void)s2; kdump_clear_err(ctx);
+			}
+			if (st == KDUMP_OK) {
+				if (kdump_get_attr(ctx, KDUMP_ATTR_PAGE_SHIFT, &at) == KDUMP_OK) pshift = at.val.number;
+				if (kdump_get_addrxlat(ctx, &axctx, &axsys) != KDUMP_OK) {
+					fprintf(stderr, "reopen get_addrxlat: %s\n", kdump_get_err(ctx));
+					axctx = NULL; axsys = NULL;
+				}
+				kdump_clear_err(ctx);
+			}
+			printf("> reopen %s\n", kstatus_name(st));
+			if (st != KDUMP_OK) { fprintf(stderr, "reopen: %s\n", kdump_get_err(ctx)); do_close(); }
 		} else if (!strcmp(line, "close")) {
 			do_close();
 		} else if (sscanf(line, "page %u %" SCNu64, &as, &a) == 2) {
